@@ -252,6 +252,7 @@ def owners(div):
         return ({"C20"} | ({"C09"} if ("poll-" in txt or "reproc_poll" in txt) else set()) | ({"C16"} if (" drain " in txt or "reproc_drain" in txt) else set())
                 | ({"C13"} if ("start-rejected-valid" in txt or "start-accepted-invalid" in txt or "parse_options" in txt) else set())
                 | ({"C12"} if "mask-after-start" in txt else set())
+                | ({"C17"} if ("hang" in txt or "rw-" in txt) else set())   # a call that waits for something other than the child
                 | ({"C02"} if any(w in txt for w in ("echo-differs", "read-end", "rw-", "reproc_read", "reproc_write", "reproc_drain", " drain ")) else set()))
     if kind == "optprod":
         return {"C13"}
@@ -1317,12 +1318,12 @@ PROPS = {
     "C19": {"families": ["wrapper"], "title": "reproc++ is a faithful mapping of the C API",
             "level_text": "TLC enumerates the option records, wrapper methods and C return values of spec/Wrapper.tla (every field with several pairwise distinguishable values) and predicts what the C layer must receive and what the wrapper must return; each point is executed through the real reproc++ sources over a recording mock of the C API and compared.",
             "technique": "TLA+ mapping model (Wrapper.tla) enumerated by TLC; every point replayed through reproc++ over a mock C API (conformance)"},
-    "C14": {"families": ["life", "free"], "title": "life cycle; misuse errors, never UB"},
+    "C14": {"families": ["life", "faults", "free"], "title": "life cycle; misuse errors, never UB"},
     "C02": {"families": ["stream", "threads", "free"], "title": "stream fidelity"},
     # (thorough: the destroy scripts also run through the C++ destructor in C16's cxx family)
     "C15": {"families": ["destroy", "restart", "free"], "title": "destroy applies the stop policy"},
     "C16": {"families": ["drain", "run", "nest", "cxx", "free"], "title": "drain and run"},
-    "C17": {"families": ["stream", "free"], "title": "nonblocking never blocks; blocking waits only for the child"},
+    "C17": {"families": ["stream", "threads", "free"], "title": "nonblocking never blocks; blocking waits only for the child"},
     "C08": {"families": ["poll", "restart", "free"], "title": "deadlines and timeouts bound every wait and poll"},
     "C09": {"families": ["poll", "stream", "threads", "free"], "title": "poll reports exactly the true events"},
 }
